@@ -463,3 +463,5 @@ def check(ctx: Ctx, col: Collector, tier: str) -> None:
     col.assume("grouping of mixed tuple/non-tuple inferred returns and docstring-name matching by hash(type) are value-level and not decided")
     from .shared import share
     share(ctx, col, "C05", {"C05.UNION-NORMAL"}, "a result whose annotation is a union is rendered with all members of the union")
+    share(ctx, col, "C05", {"C05.CTOR-TABLE"}, "the results of an annotated function are the elements of the tuple type its annotation is translated to: only a fixed-length tuple annotation "
+          "has several results (a NamedTuple class is one result, a tuple of any length is one result)", key_filter=lambda o: "::TupleType" in o.key or "::Instance:tuple" in o.key)
